@@ -844,4 +844,182 @@ def lbSpec (k : Int) : List Int → Nat
   | [] => 0
   | y :: ys => if y < k then lbSpec k ys + 1 else 0
 
+/-! ### the member functions as they were BEFORE the `fix:` commits of branch fix-C02
+
+  Kept so that every repaired defect has a kernel-checked witness: a short history that std::vector accepts
+  and the repaired code runs, on which the original body faults in the slot model.  Transcribed from
+  `git show db40834^:igris/container/vector.h` (the tree before the first fix). -/
+
+/-- `std::move_backward(first, last, d_last)` of the original insert / emplace / range insert: EVERY
+    element is move-ASSIGNED `k` slots up (the repaired `shift_up` move-constructs into the slots behind the
+    old end); `cnt` iterations left, the next source is `pos + cnt - 1` -/
+def moveBackwardOrig (b : Buf) (pos k : Nat) : Nat → Ledger → Option (Buf × Ledger)
+  | 0, l => some (b, l)
+  | cnt + 1, l =>
+    match moveOut b (pos + cnt) with
+    | none => none
+    | some (x, b) =>
+      match assign b (pos + cnt + k) x with
+      | none => none
+      | some b => moveBackwardOrig b pos k cnt (l.addMasg 1)
+
+/-- a `const T &` / forwarded argument read AFTER `reserve`: a reference to an own element dangles when the
+    buffer was replaced (read of a freed block = fault) -/
+def argValLate (realloc : Bool) (v : Vec) : Arg → Option Val
+  | .val x => some x
+  | .own i => if realloc then none else argVal v (.own i)
+
+/-- 37ab9b2^: `invalidate(); m_data = m_alloc.allocate(m_size); m_size = other.m_size; m_capacity = m_size;`
+    then the copy loop — `m_size` is 0 after invalidate(), so the block has 0 slots -/
+def copyAssignOrig (v o : Vec) (l : Ledger) : Option (Vec × Ledger) :=
+  match invalidate v l with
+  | none => none
+  | some (v0, l) =>
+    match copyLoop o.data (Buf.fresh v0.size) 0 o.size (l.addAlloc 1) with
+    | none => none
+    | some (b, l) => some ({ data := some b, cap := o.size, size := o.size }, l)
+
+/-- db40834^: `for (i < sz) destructor(first + i); std::move(last, end(), first); m_size -= sz;` -/
+def eraseOrig (v : Vec) (f t : Nat) (l : Ledger) : Option (Vec × Ledger) :=
+  match v.data with
+  | none => if t - f = 0 ∧ v.size - t = 0 then some (v, l) else none
+  | some b =>
+    match destroyRange b f (t - f) l with
+    | none => none
+    | some (b, l) =>
+      match moveDown b t f (v.size - t) l with
+      | none => none
+      | some (b, l) => some ({ v with data := some b, size := v.size - (t - f) }, l)
+
+/-- 5125225^: `void erase(iterator newend) { m_size = newend - m_data; }` -/
+def eraseToOrig (v : Vec) (k : Nat) (l : Ledger) : Option (Vec × Ledger) :=
+  if k > v.size then none else some ({ v with size := k }, l)
+
+/-- ebcd133^: `reserve(m_size + 1); constructor(m_data + m_size, ref); m_size++;` -/
+def emplaceBackOrig (v : Vec) (a : Arg) (l : Ledger) : Option (Vec × Ledger) :=
+  let realloc := decide (v.size + 1 > v.cap)
+  match reserve v (v.size + 1) l with
+  | none => none
+  | some (v, l) =>
+    match argValLate realloc v a, v.data with
+    | some x, some b =>
+      match construct b v.size x with
+      | none => none
+      | some b => some ({ v with data := some b, size := v.size + 1 }, l.addCtor 1)
+    | _, _ => none
+
+/-- f1b29cb^, insert(pos, value): `reserve(m_size + 1); m_size++; move_backward(first, prev(end()), end());
+    *first = value;` -/
+def insertOrig (v : Vec) (pos : Nat) (a : Arg) (l : Ledger) : Option (Vec × Ledger) :=
+  let realloc := decide (v.size + 1 > v.cap)
+  match reserve v (v.size + 1) l with
+  | none => none
+  | some (v, l) =>
+    match v.data with
+    | none => none
+    | some b =>
+      match moveBackwardOrig b pos 1 (v.size - pos) l with
+      | none => none
+      | some (b, l) =>
+        match argValLate realloc { v with data := some b } a with
+        | none => none
+        | some x =>
+          match assign b pos x with
+          | none => none
+          | some b => some ({ v with data := some b, size := v.size + 1 }, l.addAsg 1)
+
+/-- f1b29cb^, emplace(pos, args…): the same with `new (first) T(args…)` over the slot at `pos` -/
+def emplaceOrig (v : Vec) (pos : Nat) (a : Arg) (l : Ledger) : Option (Vec × Ledger) :=
+  let realloc := decide (v.size + 1 > v.cap)
+  match reserve v (v.size + 1) l with
+  | none => none
+  | some (v, l) =>
+    match v.data with
+    | none => none
+    | some b =>
+      match moveBackwardOrig b pos 1 (v.size - pos) l with
+      | none => none
+      | some (b, l) =>
+        match argValLate realloc { v with data := some b } a with
+        | none => none
+        | some x =>
+          match construct b pos x with
+          | none => none
+          | some b => some ({ v with data := some b, size := v.size + 1 }, l.addCtor 1)
+
+/-- `std::copy(m_data + _first, m_data + _last, first_it)` of the original range insert: the source offsets
+    were taken before `reserve` and are used unchanged afterwards (no correction for the shift; a foreign
+    range re-based on a replaced buffer points into unrelated memory = fault) -/
+def copyInOrig (b : Buf) (realloc : Bool) (pos : Nat) (src : Src) (k : Nat) : Nat → Ledger → Option (Buf × Ledger)
+  | 0, l => some (b, l)
+  | n + 1, l =>
+    let x : Option Val :=
+      match src with
+      | .own f _ => rd b (f + k)
+      | .ext xs => if realloc then none else xs[k]?
+    match x with
+    | none => none
+    | some x =>
+      match assign b (pos + k) x with
+      | none => none
+      | some b => copyInOrig b realloc pos src (k + 1) n (l.addAsg 1)
+
+/-- a60ae02^: `sz = _last - _first; reserve(m_size + sz); m_size += sz; move_backward(first_it,
+    prev(end(), sz), end()); std::copy(m_data + _first, m_data + _last, first_it);` -/
+def insertRangeOrig (v : Vec) (pos : Nat) (src : Src) (l : Ledger) : Option (Vec × Ledger) :=
+  let sz := src.count
+  let realloc := decide (v.size + sz > v.cap)
+  match reserve v (v.size + sz) l with
+  | none => none
+  | some (v, l) =>
+    match v.data with
+    | none => if sz = 0 then some (v, l) else none
+    | some b =>
+      match moveBackwardOrig b pos sz (v.size - pos) l with
+      | none => none
+      | some (b, l) =>
+        match copyInOrig b realloc pos src 0 sz l with
+        | none => none
+        | some (b, l) => some ({ v with data := some b, size := v.size + sz }, l)
+
+/-- 7c36ffc^, const at(): `assert(num < m_size);` in front of the range test — `none` = abort -/
+def vecAtConstOrig (v : Vec) (i : Nat) : Option (Option Val) :=
+  if i ≥ v.size then none else vecAt v i
+
+/-- which original body is put back (one defect at a time; everything else is the repaired code) -/
+inductive Orig where
+  | copyAssign | eraseRange | eraseTo | pushBack | insert | emplace | insertRange | constAt
+  deriving DecidableEq, Repr
+
+def stepOrig (o : Orig) (s : St) (op : Op) : Option (St × Ret) :=
+  match o, op with
+  | .copyAssign, .copyAssign d src =>
+    if d = src then some (s, .unit) else
+    (copyAssignOrig (s.regs d) (s.regs src) s.led).map fun (v, l) => (s.set d v l, .unit)
+  | .eraseRange, .erase r f t => (eraseOrig (s.regs r) f t s.led).map fun (v, l) => (s.set r v l, .unit)
+  | .eraseTo, .eraseTo r k => (eraseToOrig (s.regs r) k s.led).map fun (v, l) => (s.set r v l, .unit)
+  | .pushBack, .emplaceBack r a => (emplaceBackOrig (s.regs r) a s.led).map fun (v, l) => (s.set r v l, .unit)
+  | .insert, .emplace r pos a => (insertOrig (s.regs r) pos a s.led).map fun (v, l) => (s.set r v l, .pos pos)
+  | .emplace, .emplace r pos a => (emplaceOrig (s.regs r) pos a s.led).map fun (v, l) => (s.set r v l, .pos pos)
+  | .insertRange, .insertRange r pos src =>
+    (insertRangeOrig (s.regs r) pos src s.led).map fun (v, l) => (s.set r v l, .pos pos)
+  | .constAt, .at r i => (vecAtConstOrig (s.regs r) i).map fun x => (s, match x with | some v => .val v | none => .throw)
+  | _, op => step false s op
+
+/-- a history on the code with ONE original body put back, followed by the destructors of registers 0..2 -/
+def runOrig (o : Orig) : St → List Op → Option St
+  | s, [] => destroyAll s 3
+  | s, op :: ops =>
+    match stepOrig o s op with
+    | none => none
+    | some (s, _) => runOrig o s ops
+
+/-- the same history on the repaired code -/
+def runFixed : St → List Op → Option St
+  | s, [] => destroyAll s 3
+  | s, op :: ops =>
+    match step false s op with
+    | none => none
+    | some (s, _) => runFixed s ops
+
 end Igris.C02
